@@ -62,12 +62,24 @@ func init() {
 			t := a[0].(Struct)
 			wall, ext := t[0].(*term.Term), t[1].(*term.Term)
 			layout := a[1].(*term.Term)
+			if loc, ok := t[2].(Ptr); ok && loc.Obj != 0 {
+				// a time in some other location than UTC: the text depends on the zone (opaque, one function per zone)
+				return term.UF("time_format_in_zone", term.Str, wall, ext, layout, term.BVC(64, uint64(loc.Obj)))
+			}
 			if wall.IsConst() && ext.IsConst() && layout.IsConst() {
 				if tt, ok := concreteTime(wall.U, ext.SVal()); ok {
 					return term.StrC(tt.Format(layout.S))
 				}
 			}
 			return term.UF("time_format", term.Str, wall, ext, layout)
+		}
+		I["(time.Time).In"] = func(e *Engine, st *State, th *Thread, fn *ssa.Function, a []Value, in *ssa.Call) Value {
+			t := a[0].(Struct)
+			loc := e.pick(st, a[1]).(Ptr)
+			if loc.Obj == 0 {
+				panic(goPanicSig{msg: "time: missing Location in call to Time.In"})
+			}
+			return Struct{t[0], t[1], loc}
 		}
 		// time.After / NewTimer(d).C: a channel that becomes ready at an arbitrary moment; receiving from it
 		// moves the symbolic clock to at least armed+d ("timers fire no earlier than their duration").
